@@ -24,7 +24,8 @@ def run(tier):
     try:
         pc.tlc_signsupport(chk)
         tr = pc.SupportTrace(os.path.join(work, "c11.ndjson"))
-        f = pc.freq()
+        f_lin = pc.freq()
+        f_log = 0.04 * 1.085 ** np.arange(40)          # logarithmic grid as used by spectral wave models (0.04 .. 0.96 Hz)
         pairs = [("st4", "st4"), ("st4", "st6")]
         scan_u = [2.0 * i for i in range(1, 21)]        # 2, 4, ..., 40 m/s
         nsingle = [0]
@@ -32,7 +33,8 @@ def run(tier):
             bal = create_balance(gname, dname)
             for N in ([24] if quick else [16, 24, 36]):
                 dirs = [j * 360.0 / N for j in range(N)]
-                for B in ([1, 4] if quick else [1, 2, 5, 8]):
+                for bi_, B in enumerate([1, 4] if quick else [1, 2, 5, 8]):
+                    f = f_log if (bi_ + len(gname + dname)) % 2 else f_lin
                     vds, depths = [], []
                     for b in range(B):
                         fp = rng.uniform(0.1, 0.25)
@@ -45,8 +47,10 @@ def run(tier):
                         vds[-1] = pc.sea(f, dirs, 0.07, 0.05, 100.0, 15.0)
                         vds[-2] = np.zeros((len(f), N))
                     spec = pc.spectrum(f, dirs, vds, depths)
-                    with_rate = rng.random() < 0.5
-                    dEdt = pc.spectrum(f, dirs, [1e-5 * np.asarray(v) for v in vds], depths) if with_rate else None
+                    with_rate = (bi_ % 2 == 1) if quick else rng.random() < 0.5
+                    # rate of change of a turning and growing sea: (spectrum rotated by two bins - spectrum) / 1 h + growth
+                    rates = [(np.roll(np.asarray(v), 2, axis=1) - np.asarray(v)) / 3600.0 + 1e-5 * np.asarray(v) for v in vds]
+                    dEdt = pc.spectrum(f, dirs, rates, depths) if with_rate else None
                     ctx = {"pair": "%s/%s" % (gname, dname), "N": N, "batch": B, "rate_of_change": with_rate}
                     try:
                         res = estimate_u10_from_source_terms(spec, bal, time_derivative_spectrum=dEdt)
@@ -105,7 +109,7 @@ def run(tier):
                     if B > 1:
                         i = rng.randrange(B)
                         s1 = pc.spectrum(f, dirs, [vds[i]], [depths[i]])
-                        d1 = None if dEdt is None else pc.spectrum(f, dirs, [1e-5 * np.asarray(vds[i])], [depths[i]])
+                        d1 = None if dEdt is None else pc.spectrum(f, dirs, [rates[i]], [depths[i]])
                         r1 = estimate_u10_from_source_terms(s1, bal, time_derivative_spectrum=d1)
                         evals += 1
                         if not np.allclose(r1["u10"].values[0], u10[i], rtol=1e-9, equal_nan=True):
